@@ -74,6 +74,8 @@ class Constraint:
 
     def holds_at(self, ring, vals, tol=0.0):
         x = ring.evalf(self.p, vals)
+        if x != x:
+            return True      # mentions an abstracted variable without a numeric value: cannot be evaluated
         return {1: abs(x) <= tol, 2: x > -tol, 3: x >= -tol, 4: x < tol, 5: x <= tol, 6: True if tol else x != 0}[self.rel]
 
     def const_truth(self):
@@ -85,7 +87,7 @@ class Constraint:
 
 
 class Encoder:
-    def __init__(self, trace, free=(), angle_pins=None, pins=None, max_terms=200000, maxL=8, free_all=False):
+    def __init__(self, trace, free=(), angle_pins=None, pins=None, max_terms=200000, maxL=8, free_all=False, abstract_big=False):
         self.t = trace
         self.ring = P.Ring(max_terms)
         self.free = set(free)
@@ -97,6 +99,7 @@ class Encoder:
         for k_, v_ in exact_pins.items():
             self.pins.setdefault(k_, v_)
         self.maxL = maxL
+        self.abstract_big = abstract_big   # products beyond max_terms become opaque variables (sound for proving)
         self.memo = {}                 # node id -> poly
         self.vals = {}                 # var index -> float value at the seed
         self.defs = {}                 # var index -> list[Constraint] (defining constraints)
@@ -185,9 +188,19 @@ class Encoder:
         if op == "neg":
             return P.neg(m[a])
         if op == "mul":
-            return R.mul(m[a], m[b])
+            if not self.abstract_big:
+                return R.mul(m[a], m[b])
+            try:
+                return R.mul(m[a], m[b])
+            except P.TooBig:
+                return self.opaque_node(n, v)
         if op == "div":
-            return R.mul(m[a], self.inv(m[b]))
+            if not self.abstract_big:
+                return R.mul(m[a], self.inv(m[b]))
+            try:
+                return R.mul(m[a], self.inv(m[b]))
+            except P.TooBig:
+                return self.opaque_node(n, v)
         if op == "sqrt":
             return self.root(m[a], 2, v)
         if op == "cbrt":
@@ -216,7 +229,14 @@ class Encoder:
     # ------------------------------------------------------------------ inverse / roots / uf
     def inv(self, p):
         if not p:
-            raise EncodeError("division by exact zero")
+            # the divisor is identically zero over the reals and non-zero only by rounding in the double run:
+            # the quotient has no real-arithmetic meaning; abstract it by a fresh unconstrained variable
+            self.stats["divisions_by_rounding_residue_abstracted"] = self.stats.get("divisions_by_rounding_residue_abstracted", 0) + 1
+            vi = self.ring.var("Z%d" % self.stats["divisions_by_rounding_residue_abstracted"], "abstracted")
+            self.vals[vi] = math.nan
+            self.defs.setdefault(vi, [])
+            self.assumptions.append("a division by a quantity that is exactly zero over the reals (rounding residue) was abstracted to an arbitrary real")
+            return self.ring.v(vi)
         if P.is_const(p):
             return P.const(1 / P.const_val(p))
         # algebraic constant A + B*R (single square-root variable with constant radicand): rationalise
@@ -280,6 +300,14 @@ class Encoder:
             self.root_rad[vi] = (n, rad)
             self.stats["root_vars"] += 1
         return P.scale(self.ring.v(vi), s)
+
+    def opaque_node(self, nid, shadow):
+        """the value of this node is abstracted by a fresh real variable (identical node -> identical variable)"""
+        vi = self.ring.var("A%d" % nid, "abstracted")
+        self.vals[vi] = shadow
+        self.defs.setdefault(vi, [])
+        self.stats["abstracted_nodes"] = self.stats.get("abstracted_nodes", 0) + 1
+        return self.ring.v(vi)
 
     def uf(self, fname, args, shadow):
         k = (fname,) + tuple(P.key(a) for a in args)
@@ -723,6 +751,17 @@ class Encoder:
             for cc in cs:
                 tv = cc.const_truth()
                 if tv is None:
+                    # a literal whose exact-arithmetic value at the seed has the wrong sign by less than rounding
+                    # (e.g. an error estimate that is exactly 0.0 in the double run but a 1e-38 residue over the
+                    # rationals because decimal method coefficients are not exact) is rounding-dependent: dropped.
+                    try:
+                        strict = cc.holds_at(self.ring, self.vals, 0.0)
+                        loose = strict or self._holds_scaled(cc, 1e-12) or cc.holds_at(self.ring, self.vals, 1e-9)
+                    except (KeyError, OverflowError):
+                        strict = loose = True
+                    if not strict and loose:
+                        self.stats["literals_rounding_dependent_dropped"] = self.stats.get("literals_rounding_dependent_dropped", 0) + 1
+                        continue
                     out.append((idx, cc))
                 elif not tv:
                     # the literal no longer mentions a variable and is false in exact arithmetic: the two sides are
@@ -730,6 +769,18 @@ class Encoder:
                     # The executed path is kept (it is what the real code did); the literal is dropped and counted.
                     self.stats["literals_tied_in_exact_arithmetic"] = self.stats.get("literals_tied_in_exact_arithmetic", 0) + 1
         return out
+
+    def _holds_scaled(self, c, rtol):
+        val = 0.0
+        mag = 0.0
+        for m, cf in c.p.items():
+            t = cf.numerator / cf.denominator
+            for vi, ex in m:
+                t *= self.vals[vi] ** ex
+            val += t
+            mag += abs(t)
+        th = rtol * max(mag, 1e-300)
+        return {1: abs(val) <= th, 2: val > -th, 3: val >= -th, 4: val < th, 5: val <= th, 6: True}[c.rel]
 
     def closure(self, polys):
         """defining constraints of every defined variable reachable from the given polynomials"""
